@@ -169,6 +169,9 @@ func main() {
 		for i := 0; i < 8 && i < len(kvs); i++ {
 			fmt.Fprintf(os.Stderr, "profile: %8d terms at %s\n", kvs[i].v, kvs[i].k)
 		}
+		if theBDD != nil {
+			fmt.Fprintf(os.Stderr, "bdd: nodes=%d vars=%d calls=%d cut=%d blown=%v\n", len(theBDD.nodes), theBDD.nvars, bddStats.calls, bddStats.cut, theBDD.blown)
+		}
 		fmt.Fprintf(os.Stderr, "encoded: instrs=%d terms=%d merges=%d lazy=%d constraints=%d encode_ms=%d\n", e.instrs, TS.next, e.merges, len(e.lazyPanics), len(e.constraints), res.EncodeMs)
 	}
 	res.FeasQueries, res.FeasCut, res.FeasMs = e.feasN, e.feasCut, e.feasMs
